@@ -3,7 +3,7 @@ import ast
 
 from ..core import AnalysisError, u, walk_local, enclosing_stmt
 from ..lib import (construct, std_facts, def_of, copy_kind, at_least, facts_at,
-                   calls_of_node, stored_names, in_subtree, returns_of, card_cases)
+                   calls_of_node, stored_names, in_subtree, returns_of, card_cases, is_recursive_copier)
 from ..resolve import store_accesses
 from .common import hasheq, dunder_sweep, instance_state, finalize_conflict_guard, method_selector_rule
 
@@ -157,7 +157,8 @@ def run(ctx):
     need = 'DEEP' if fld in nested else 'SHALLOW'
     if fld in assigns:
       v = assigns[fld].value
-      k = copy_kind(v)
+      deep_funcs = {fn_.name for fn_ in ctx.ix.module('selector_map').funcs.values() if is_recursive_copier(fn_.node)}
+      k = copy_kind(v, deep_funcs)
       ok = at_least(k, need)
       if fld not in nested and k == 'DEEP':
         ctx.fail('C08.copy', smc + '.copy',
